@@ -71,7 +71,7 @@ func (q *lproc) wait() {
 	case <-q.done:
 		q.at = ""
 		q.running = false
-	case <-time.After(10 * time.Second):
+	case <-time.After(120 * time.Second):
 		q.at = "STUCK"
 	}
 }
